@@ -10,11 +10,11 @@ func init() {
 	pkg := run.Module + "/cmd/sandbox"
 	register(&Spec{
 		ID: "C15", Dirs: []string{"cmd/sandbox", "root"}, Level: "model_checking",
-		Technique: "symbolic execution of the real main() of cmd/sandbox with its environment stubbed (flag, config library or parsePolicy, LoadFilter or the kernel contract stub below the real LoadFilter, exec, os.Exit): every combination of failures is a path (forked choice points, kernel answers symbolic), and on every path the obligations on the recorded event order are checked: exec only after a successful parse and a successful load, with the parsed policy, TSYNC and the flag's no_new_privs; any failure => non-zero exit and no exec",
+		Technique: "symbolic execution of the real main() of cmd/sandbox with its environment stubbed (flag, the configuration library below the real parsePolicy, LoadFilter or the kernel contract stub below the real LoadFilter, exec, os.Exit); the harness binds to nothing of the command but main(): every combination of failures is a path (forked choice points, kernel answers symbolic), and on every path the obligations on the recorded event order are checked: exec only after a successful parse and a successful load, with the parsed policy, TSYNC and the flag's no_new_privs; any failure => non-zero exit and no exec",
 		Rule:      "one instance = (which layer is stubbed, argv length, policy naming an unknown syscall or not); one path per combination of failures.",
 		Jobs: func(c *Ctx) ([]run.Job, error) {
 			var jobs []run.Job
-			for layer := 0; layer <= 2; layer++ {
+			for layer := 1; layer <= 2; layer++ {
 				for argc := 0; argc <= 3; argc++ {
 					jobs = append(jobs, run.Job{ID: fmt.Sprintf("main/layer%d/argc%d", layer, argc), Pkg: pkg, Harness: "H_SandboxMain", Params: map[string]interface{}{"layer": layer, "argc": argc}})
 				}
